@@ -62,7 +62,7 @@ def robust_tokens(w, h):
     for s in (b"c", b"D", b"E", b"H", b"M", b"Z", b"7", b"8", b"=", b">", b"#8", b"%G", b"%@", b"(0", b"(B", b")0", b")U", b"(K", b"Q", b"%", b"("):
         T.append(ESC + s)
     T += [ESC + b"]0;title\x07", ESC + b"]2;t\x1b\\", ESC + b"];\xff\xfe\x07", ESC + b"]P1234567", ESC + b"]R", ESC + b"]0;unterminated", ESC + b"]"]
-    params = ["", "0", "1", "2", str(max(w, h) + 1), "999", ";;;", "12345678901234567890", f"{h};{w}", "1;999"]
+    params = ["", "0", "1", "2", str(max(w, h) + 1), "999", ";;;", "12345678901234567890", f"{h};{w}", "1;999", "9" * 4400]  # the last one is beyond what int() converts by default (4300 digits)
     finals = "@ABCDEFGHJKLMPXacdefghlmnqrsu`"
     for f in finals:
         for p in params:
